@@ -80,10 +80,23 @@ fn a32(v: &[u8]) -> [u8; 32] {
 fn pub_value(i: usize) -> String {
     let k0 = [0x11u8; 32];
     let k1 = [0x22u8; 32];
-    match i % 4 {
+    match i % 7 {
         0 => rk::encode_pk(&k0),
         1 => rk::encode_pk(&k1),
         2 => b64::encode(&[0x33u8; 35]),
+        // not base64 at all in the documented sense: an interior space, a trailing pad, a line-wrap residue
+        4 => {
+            let mut e = rk::encode_pk(&k1);
+            e.insert(10, ' ');
+            e
+        }
+        5 => format!("{}=", rk::encode_pk(&k1)),
+        6 => {
+            let mut e = rk::encode_pk(&k1);
+            e.insert(24, ' ');
+            e.insert(12, ' ');
+            e
+        }
         _ => {
             let mut v = k0.to_vec();
             v.extend_from_slice(&[1, 2, 3, 4]);
@@ -93,7 +106,12 @@ fn pub_value(i: usize) -> String {
 }
 
 fn priv_value(i: usize) -> String {
-    match i % 3 {
+    match i % 4 {
+        3 => {
+            let mut e = b64::encode(&{ let mut v = rk::SK_VERSION.to_vec(); v.extend_from_slice(&[0x44; 80]); v });
+            e.insert(40, ' ');
+            e
+        }
         // well-formed 84-byte blobs (never unlocked here, so no scrypt)
         0 => b64::encode(&{ let mut v = rk::SK_VERSION.to_vec(); v.extend_from_slice(&[0x44; 80]); v }),
         1 => b64::encode(&{ let mut v = rk::SK_VERSION.to_vec(); v.extend_from_slice(&[0x55; 80]); v }),
@@ -617,8 +635,8 @@ fn tok_char(t: &Tok) -> char {
     match t {
         Tok::Section => 'S',
         Tok::Name(_) => 'N',
-        Tok::Public(i) => ['P', 'Q', 'L', 'X'][i % 4],
-        Tok::Private(i) => ['V', 'W', 'B'][i % 3],
+        Tok::Public(i) => ['P', 'Q', 'L', 'X', 'S', 'E', 'T'][i % 7],
+        Tok::Private(i) => ['V', 'W', 'B', 'Z'][i % 4],
         Tok::Comment(_) => '#',
         Tok::Blank => '_',
         Tok::Junk(_) => 'J',
@@ -777,9 +795,9 @@ impl Family for A9 {
                         0..=5 => Tok::Section,
                         6..=9 => Tok::Name(rng.pick(&names).to_string()),
                         10..=13 => Tok::Public(rng.usize_below(2)),
-                        14 => Tok::Public(2 + rng.usize_below(2)),
+                        14 => Tok::Public(2 + rng.usize_below(5)),
                         15..=16 => Tok::Private(rng.usize_below(2)),
-                        17 => Tok::Private(2),
+                        17 => Tok::Private(2 + rng.usize_below(2)),
                         18 => Tok::Comment("comment = with [Key] inside".into()),
                         19 => Tok::Blank,
                         20 => Tok::Junk((*rng.pick(&["garbage", "Key]", "name = lower", "= nothing", "Nam = x"])).to_string()),
